@@ -4,6 +4,7 @@ import (
 	"context"
 	"fmt"
 	"io"
+	"strings"
 	"sync"
 
 	"github.com/klauspost/compress/gzip"
@@ -80,7 +81,8 @@ func (s *Scraper) RequestTo() error {
 	}
 
 	s.reader = s.HTTPResponse.Body
-	if s.HTTPResponse.Header.Get("Content-Encoding") == "gzip" {
+	// content codings are case-insensitive, and x-gzip is an alias of gzip (RFC 7231, 3.1.2.1)
+	if ce := s.HTTPResponse.Header.Get("Content-Encoding"); strings.EqualFold(ce, "gzip") || strings.EqualFold(ce, "x-gzip") {
 		s.gZipReader, err = common.GetGzipReader(s.HTTPResponse.Body)
 		if err != nil {
 			return fmt.Errorf("cannot read gzipped lines with Prometheus exposition format: %w", err)
